@@ -253,7 +253,12 @@ export class ProcGenWrapper {
         }
         const elem = this.shadowRoot.createTextNode(textContent)
         elem.destroyBackendElementOnRemoval()
-        if (slotElement) Element.setSlotElement(elem, slotElement)
+        if (slotElement) {
+          Element.setSlotElement(elem, slotElement)
+          // (the update pass skips nodes that are not marked as belonging to this slot)
+          const tmplArgs = getTmplArgs(elem)
+          tmplArgs.dynamicSlotNameMatched = true
+        }
         if (textInit) textInit(elem)
         childNodes.push(elem)
       },
